@@ -2,9 +2,9 @@ package main
 
 import (
 	"fmt"
-	"os"
 	"go/token"
 	"go/types"
+	"os"
 	"sort"
 	"strconv"
 	"strings"
@@ -172,6 +172,14 @@ func (ws *writeScanner) scanIns(ins ssa.Instruction, inScope func(ssa.Instructio
 			if mc, ok := cc.Value.(*ssa.MakeClosure); ok {
 				f = mc.Fn.(*ssa.Function)
 			}
+		}
+		if f == nil && !cc.IsInvoke() {
+			if sig, ok := under(cc.Value.Type()).(*types.Signature); ok {
+				for _, cand := range e.addressTakenFuncs(sig) {
+					ws.scanFn(cand, nil)
+				}
+			}
+			return
 		}
 		if f == nil {
 			if cc.IsInvoke() {
